@@ -6,6 +6,7 @@ package rules
 import (
 	"go/token"
 	"go/types"
+	"sort"
 	"strings"
 
 	"golang.org/x/tools/go/ssa"
@@ -442,5 +443,637 @@ func ruleCloseDBAlwaysDone(c *report.Ctx) {
 		c.Fail(sk(f)+":Done-on-every-path", "CloseDB can return without wg.Done() (e.g. when db.Close reports an error): WalletManager.Stop blocks forever in wg.Wait and shutdown never completes", p.Pos(f.Pos()), w...)
 	} else {
 		c.OK(sk(f)+":Done-on-every-path", "every return passes wg.Done()", p.Pos(f.Pos()))
+	}
+}
+
+// ---------------------------------------------------------------------------------------------------------
+// second batch
+
+func isAddOne(v ssa.Value, base ssa.Value) bool {
+	b, ok := v.(*ssa.BinOp)
+	if !ok || b.Op != token.ADD {
+		return false
+	}
+	k, isK := constInt(b.Y)
+	return isK && k == 1 && (base == nil || b.X == base)
+}
+
+// reachesThroughPhi: does pred hold for v or (recursively) for some phi edge of v?
+func reachesThroughPhi(v ssa.Value, pred func(ssa.Value) bool, seen map[ssa.Value]bool) bool {
+	if seen[v] {
+		return false
+	}
+	seen[v] = true
+	if pred(v) {
+		return true
+	}
+	if ph, ok := v.(*ssa.Phi); ok {
+		for _, e := range ph.Edges {
+			if reachesThroughPhi(e, pred, seen) {
+				return true
+			}
+		}
+	}
+	return false
+}
+
+// ruleGapWindowExtends (C12/C07): the restore scan's window is re-anchored at (index of the used address)+1.
+func ruleGapWindowExtends(c *report.Ctx) {
+	p := c.P
+	c.Rule("restore-window-extends", "the restore scan continues while i < (last used index + 1) + gapLimit: finding a used address moves the window, and the window covers every index the issuing rule could have handed out after it", 2)
+	f := fn(c, pkgKeystore, "", "createManagerKeyScope")
+	if f == nil {
+		return
+	}
+	var gap ssa.Value
+	for _, par := range f.Params {
+		if par.Name() == "addressGapLimit" {
+			gap = par
+		}
+	}
+	if gap == nil && len(f.Params) > 0 {
+		gap = f.Params[len(f.Params)-1]
+	}
+	// index phis: i with an edge i+1
+	type loop struct {
+		i     *ssa.Phi
+		bases []ssa.Value // N in  i < add(N, gap)
+		pos   ssa.Instruction
+	}
+	var loops []*loop
+	byPhi := map[*ssa.Phi]*loop{}
+	var expand func(y ssa.Value, l *loop, seen map[ssa.Value]bool)
+	expand = func(y ssa.Value, l *loop, seen map[ssa.Value]bool) {
+		if seen[y] {
+			return
+		}
+		seen[y] = true
+		switch x := y.(type) {
+		case *ssa.Phi:
+			for _, e := range x.Edges {
+				expand(e, l, seen)
+			}
+		case *ssa.Call:
+			if len(x.Call.Args) == 2 && x.Call.Args[1] == gap {
+				l.bases = append(l.bases, x.Call.Args[0])
+			}
+		case *ssa.BinOp:
+			if x.Op == token.ADD && x.Y == gap {
+				l.bases = append(l.bases, x.X)
+			}
+		}
+	}
+	an.Instrs(f, func(in ssa.Instruction) {
+		b, ok := in.(*ssa.BinOp)
+		if !ok || b.Op != token.LSS {
+			return
+		}
+		ph, isPhi := b.X.(*ssa.Phi)
+		if !isPhi {
+			return
+		}
+		hasInc := false
+		for _, e := range ph.Edges {
+			if isAddOne(e, ph) {
+				hasInc = true
+			}
+		}
+		if !hasInc {
+			return
+		}
+		l := byPhi[ph]
+		if l == nil {
+			l = &loop{i: ph, pos: in}
+			byPhi[ph] = l
+			loops = append(loops, l)
+		}
+		expand(b.Y, l, map[ssa.Value]bool{})
+	})
+	n := 0
+	for _, l := range loops {
+		if len(l.bases) == 0 {
+			continue // not a gap-window loop
+		}
+		n++
+		key := siteKey(f, "scan-loop", n)
+		ok := false
+		for _, base := range l.bases {
+			if reachesThroughPhi(base, func(v ssa.Value) bool { return isAddOne(v, l.i) }, map[ssa.Value]bool{l.i: true}) {
+				ok = true
+			}
+		}
+		if ok {
+			c.OK(key, "loop bound contains add(nextIndex, gap) with nextIndex = i+1 on a used address", posOf(c, l.pos))
+		} else {
+			var bs []string
+			for _, b := range l.bases {
+				bs = append(bs, p.Desc(b))
+			}
+			c.Fail(key, "the restore scan's bound is built from "+strings.Join(bs, ", ")+" + gap and never from (used index + 1) + gap: the scan stops short of addresses the issuing rule can hand out after a used address, so their funds are not found by a restore", posOf(c, l.pos))
+		}
+	}
+}
+
+// keyBranchConst walks back from an extended key to the constant branch it was derived under:
+// acct.Child(B)[.Neuter()].Child(i)
+func keyBranchConst(v ssa.Value, depth int, seen map[ssa.Value]bool) (vals []int64, okAll bool) {
+	if depth > 12 || seen[v] {
+		return nil, true
+	}
+	seen[v] = true
+	switch x := v.(type) {
+	case *ssa.Phi:
+		okAll = true
+		for _, e := range x.Edges {
+			if k, isK := e.(*ssa.Const); isK && k.Value == nil {
+				continue
+			}
+			vs, ok := keyBranchConst(e, depth+1, seen)
+			vals = append(vals, vs...)
+			okAll = okAll && ok
+		}
+		return vals, okAll
+	case *ssa.Extract:
+		return keyBranchConst(x.Tuple, depth+1, seen)
+	case *ssa.Call:
+		callee := x.Call.StaticCallee()
+		if callee == nil || len(x.Call.Args) == 0 {
+			return nil, false
+		}
+		switch callee.Name() {
+		case "Neuter":
+			return keyBranchConst(x.Call.Args[0], depth+1, seen)
+		case "Child":
+			if k, isK := constInt(x.Call.Args[1]); isK {
+				return []int64{k}, true
+			}
+			return keyBranchConst(x.Call.Args[0], depth+1, seen)
+		}
+	}
+	return nil, false
+}
+
+// ruleBranchKeyAgreement (C04): in the restore scan, the branch recorded for an address is the branch
+// of the key the address was derived from.
+func ruleBranchKeyAgreement(c *report.Ctx) {
+	c.Rule("restore-branch-agreement", "an address recovered by the restore scan records the branch constant of the branch key it was derived from (signing later re-derives from the recorded path)", 2)
+	f := fn(c, pkgKeystore, "", "createManagerKeyScope")
+	mk := fn(c, pkgKeystore, "", "newManagedAddressFromExtKey")
+	if f == nil || mk == nil {
+		return
+	}
+	for i, s := range calls(f, mk) {
+		cc := an.CallOf(s)
+		key := siteKey(f, "newManagedAddressFromExtKey", i+1)
+		// derivation path argument: load of a local struct
+		var recorded []int64
+		if ld, ok := cc.Args[1].(*ssa.UnOp); ok && ld.Op == token.MUL {
+			an.Instrs(f, func(in ssa.Instruction) {
+				st, ok := in.(*ssa.Store)
+				if !ok {
+					return
+				}
+				fa, ok := st.Addr.(*ssa.FieldAddr)
+				if !ok || fa.X != ld.X {
+					return
+				}
+				if derefStructT(fa.X.Type()).Field(fa.Field).Name() == "Branch" {
+					if k, isK := constInt(st.Val); isK {
+						recorded = append(recorded, k)
+					}
+				}
+			})
+		}
+		derived, okAll := keyBranchConst(cc.Args[2], 0, map[ssa.Value]bool{})
+		if len(recorded) != 1 || len(derived) == 0 || !okAll {
+			c.Fail(key, "undecided: could not resolve the recorded branch / the branch key of this derivation", posOf(c, s))
+			continue
+		}
+		bad := false
+		for _, d := range derived {
+			if d != recorded[0] {
+				bad = true
+			}
+		}
+		if bad {
+			c.Fail(key, "the address is derived from the branch-"+itoa(int(derived[0]))+" key but recorded under branch "+itoa(int(recorded[0]))+": after a restore the wallet shows another branch's addresses at these paths and signs for them with the wrong private key", posOf(c, s))
+		} else {
+			c.OK(key, "derived from and recorded under branch "+itoa(int(recorded[0])), posOf(c, s))
+		}
+	}
+}
+
+// ruleByteOrder: within one codec source file every encoding/binary access uses one byte order
+// (the writer and the reader of a record live in the same file).
+func ruleByteOrder(c *report.Ctx, pkgs []string, floor int) {
+	p := c.P
+	c.Rule("codec-byte-order", "the writer and the reader of a stored record use the same byte order: every encoding/binary call of one codec file uses one order", floor)
+	type use struct {
+		order string
+		in    ssa.Instruction
+	}
+	perFile := map[string][]use{}
+	want := map[string]bool{}
+	for _, k := range pkgs {
+		want[k] = true
+	}
+	for _, f := range p.ModFuncs {
+		pk := an.FuncPkg(f)
+		if pk == nil || !want[pk.Path()] {
+			continue
+		}
+		an.Instrs(f, func(in ssa.Instruction) {
+			cc := an.CallOf(in)
+			if cc == nil {
+				return
+			}
+			callee := cc.StaticCallee()
+			if callee == nil {
+				return
+			}
+			k := an.FuncKey(callee)
+			var order string
+			switch {
+			case strings.HasPrefix(k, "(encoding/binary.littleEndian)."):
+				order = "little-endian"
+			case strings.HasPrefix(k, "(encoding/binary.bigEndian)."):
+				order = "big-endian"
+			default:
+				return
+			}
+			pos := p.InstrPos(in)
+			file := pos
+			if i := strings.Index(pos, ":"); i > 0 {
+				file = pos[:i]
+			}
+			perFile[file] = append(perFile[file], use{order, in})
+		})
+	}
+	var files []string
+	for f := range perFile {
+		files = append(files, f)
+	}
+	sort.Strings(files)
+	for _, file := range files {
+		cnt := map[string]int{}
+		for _, u := range perFile[file] {
+			cnt[u.order]++
+		}
+		major := "big-endian"
+		if cnt["little-endian"] > cnt["big-endian"] {
+			major = "little-endian"
+		}
+		bad := false
+		for _, u := range perFile[file] {
+			if u.order != major {
+				bad = true
+				fnk := sk(u.in.Parent())
+				c.Fail(file+":"+fnk+":"+u.order, fnk+" uses "+u.order+" while the rest of "+file+" ("+itoa(cnt[major])+" calls) uses "+major+": the record's other side decodes the bytes swapped (an index 1 becomes 16777216), so a stored row is found under / describes another entity", posOf(c, u.in))
+			}
+		}
+		if !bad {
+			c.OK(file, itoa(len(perFile[file]))+" calls, all "+major, "")
+		}
+	}
+}
+
+// extKeyIsPublic: is the extended key value (statically) the result of Neuter(), or a child of one?
+func extKeyIsPublic(v ssa.Value, depth int) bool {
+	if depth > 10 {
+		return false
+	}
+	switch x := v.(type) {
+	case *ssa.Extract:
+		return extKeyIsPublic(x.Tuple, depth+1)
+	case *ssa.Phi:
+		for _, e := range x.Edges {
+			if k, isK := e.(*ssa.Const); isK && k.Value == nil {
+				continue
+			}
+			if !extKeyIsPublic(e, depth+1) {
+				return false
+			}
+		}
+		return true
+	case *ssa.Call:
+		callee := x.Call.StaticCallee()
+		if callee == nil || len(x.Call.Args) == 0 {
+			return false
+		}
+		switch callee.Name() {
+		case "Neuter":
+			return true
+		case "Child":
+			return extKeyIsPublic(x.Call.Args[0], depth+1)
+		}
+	}
+	return false
+}
+
+// rulePublicRowsHoldNeuteredKeys (C05): what is encrypted with the key that protects the public rows
+// is never the serialisation of a private extended key.
+func rulePublicRowsHoldNeuteredKeys(c *report.Ctx) {
+	p := c.P
+	c.Rule("public-rows-neutered", "every extended key serialised under the crypto key that protects the account's public rows (readable with the public passphrase alone) went through Neuter()", 3)
+	f := fn(c, pkgKeystore, "", "createManagerKeyScope")
+	pbk := fn(c, pkgKeystore, "", "putBranchPubKeys")
+	hdString := fn(c, pkgHD, "ExtendedKey", "String")
+	if f == nil || pbk == nil || hdString == nil {
+		return
+	}
+	// the Encrypt call feeding putBranchPubKeys fixes the receiver that plays the public role
+	encOf := func(v ssa.Value) *ssa.Call {
+		if ex, ok := v.(*ssa.Extract); ok {
+			if call, ok := ex.Tuple.(*ssa.Call); ok && call.Call.IsInvoke() && call.Call.Method.Name() == "Encrypt" {
+				return call
+			}
+		}
+		return nil
+	}
+	var pubRecv ssa.Value
+	for _, s := range calls(f, pbk) {
+		cc := an.CallOf(s)
+		for _, a := range cc.Args[1:] {
+			if e := encOf(a); e != nil {
+				pubRecv = e.Call.Value
+			} else {
+				c.Fail(sk(f)+":putBranchPubKeys-arg", "a branch public-key row is not the output of Encrypt", posOf(c, s))
+			}
+		}
+	}
+	if pubRecv == nil {
+		c.Fail(sk(f)+":public-crypto-key", "anchor lost: cannot identify the crypto key protecting the public rows", p.Pos(f.Pos()))
+		return
+	}
+	n := 0
+	an.Instrs(f, func(in ssa.Instruction) {
+		call, ok := in.(*ssa.Call)
+		if !ok || !call.Call.IsInvoke() || call.Call.Method.Name() != "Encrypt" || call.Call.Value != pubRecv {
+			return
+		}
+		// data: []byte(K.String())  or other bytes
+		d := call.Call.Args[0]
+		if cv, ok := d.(*ssa.Convert); ok {
+			d = cv.X
+		}
+		sc, ok := d.(*ssa.Call)
+		if !ok || sc.Call.StaticCallee() != hdString {
+			return // not an extended-key serialisation (compressed public keys)
+		}
+		n++
+		key := siteKey(f, "public-Encrypt(ExtendedKey.String)", n)
+		if extKeyIsPublic(sc.Call.Args[0], 0) {
+			c.OK(key, "serialises a Neuter()ed key", posOf(c, in))
+		} else {
+			c.Fail(key, "an extended key that did not go through Neuter() ("+p.Desc(sc.Call.Args[0])+") is serialised under the crypto key of the public rows: whoever has the database and the public passphrase reads a private extended key and can sign for every address below it", posOf(c, in))
+		}
+	})
+}
+
+// rulePrevOutputPerInput (C03): the output handed to the signer and to the engine is prevTx.TxOut[thisInput.PreviousOutPoint.Index].
+func rulePrevOutputPerInput(c *report.Ctx) {
+	p := c.P
+	c.Rule("prev-output-per-input", "each input is signed and verified against TxOut[PreviousOutPoint.Index] of its previous transaction, looked up for that input", 2)
+	f := fn(c, pkgWallet, "WalletManager", "signWitnessTx")
+	signTx := p.Fn(pkgTxscript, "", "SignTxOutputWit")
+	newEng := p.Fn(pkgTxscript, "", "NewEngine")
+	if f == nil || signTx == nil || newEng == nil {
+		c.Lost("signWitnessTx / txscript.SignTxOutputWit / txscript.NewEngine")
+		return
+	}
+	check := func(s ssa.Instruction, what string, args ...int) {
+		cc := an.CallOf(s)
+		for _, ai := range args {
+			key := sk(f) + ":" + what + "#arg" + itoa(ai)
+			v := cc.Args[ai]
+			// v = *(&PT.Field)
+			ld, ok := v.(*ssa.UnOp)
+			if !ok {
+				c.Fail(key, "undecided: argument is not a field of the previous output", posOf(c, s))
+				continue
+			}
+			fa, ok := ld.X.(*ssa.FieldAddr)
+			if !ok {
+				c.Fail(key, "undecided: argument is not a field of the previous output", posOf(c, s))
+				continue
+			}
+			pt := fa.X
+			ptl, ok := pt.(*ssa.UnOp)
+			var ia *ssa.IndexAddr
+			if ok {
+				ia, _ = ptl.X.(*ssa.IndexAddr)
+			}
+			if ia == nil {
+				c.Fail(key, "the previous output handed to "+what+" is "+p.Desc(pt)+", not TxOut[PreviousOutPoint.Index] evaluated for this input: an input can be signed and self-checked against another output (e.g. a cached output of the same previous transaction), so SignRawTx reports success for a transaction the consensus engine rejects", posOf(c, s))
+				continue
+			}
+			idx := p.Desc(ia.Index)
+			if strings.HasSuffix(idx, "PreviousOutPoint.Index") && strings.HasSuffix(p.Desc(ia.X), "MsgTx.TxOut") {
+				c.OK(key, "TxOut["+idx+"]", posOf(c, s))
+			} else {
+				c.Fail(key, "the previous output is indexed by "+idx+" in "+p.Desc(ia.X)+", not by this input's PreviousOutPoint.Index", posOf(c, s))
+			}
+		}
+	}
+	for _, s := range calls(f, signTx) {
+		check(s, "SignTxOutputWit", 3, 4)
+	}
+	for _, s := range calls(f, newEng) {
+		check(s, "NewEngine", 0, 6)
+	}
+}
+
+// ruleBranchCacheComplete (C03): once the branch keys were derived after an unlock, the master key is not needed again.
+func ruleBranchCacheComplete(c *report.Ctx) {
+	p := c.P
+	c.Rule("branch-cache-complete", "every cached branch key whose absence sends getPrivKeyBtcec back to the master key is filled by that visit, so one unlock needs the master key once (a concurrent passphrase check may wipe it in between two inputs)", 2)
+	f := fn(c, pkgKeystore, "AddrManager", "getPrivKeyBtcec")
+	if f == nil {
+		return
+	}
+	var dec ssa.Instruction
+	an.Instrs(f, func(in ssa.Instruction) {
+		cc := an.CallOf(in)
+		if dec != nil || cc == nil {
+			return
+		}
+		var recv ssa.Value
+		switch {
+		case cc.IsInvoke() && cc.Method.Name() == "Decrypt":
+			recv = cc.Value
+		case cc.StaticCallee() != nil && cc.StaticCallee().Name() == "Decrypt" && len(cc.Args) > 0:
+			recv = cc.Args[0]
+		default:
+			return
+		}
+		if strings.HasSuffix(p.Desc(recv), "masterKeyPriv") {
+			dec = in
+		}
+	})
+	if dec == nil {
+		c.Fail(sk(f)+":masterKeyPriv.Decrypt", "anchor lost: getPrivKeyBtcec no longer decrypts with the master key", p.Pos(f.Pos()))
+		return
+	}
+	fieldOf := func(v ssa.Value) string {
+		ld, ok := v.(*ssa.UnOp)
+		if !ok || ld.Op != token.MUL {
+			return ""
+		}
+		fa, ok := ld.X.(*ssa.FieldAddr)
+		if !ok {
+			return ""
+		}
+		st := derefStructT(fa.X.Type())
+		if st == nil {
+			return ""
+		}
+		return st.Field(fa.Field).Name()
+	}
+	fields := map[string]bool{}
+	var collect func(a an.Atom)
+	collect = func(a an.Atom) {
+		for _, o := range a.Or {
+			collect(o)
+		}
+		if a.Op == token.EQL && a.Y != nil && an.IsNilConst(a.Y) {
+			if n := fieldOf(a.X); strings.HasSuffix(n, "BranchPriv") {
+				fields[n] = true
+			}
+		}
+	}
+	for _, a := range p.GuardsOf(dec) {
+		collect(a)
+	}
+	if len(fields) == 0 {
+		c.Fail(sk(f)+":guard", "anchor lost: the master-key branch is not guarded by the absence of a cached branch key", posOf(c, dec))
+		return
+	}
+	var names []string
+	for n := range fields {
+		names = append(names, n)
+	}
+	sort.Strings(names)
+	for _, n := range names {
+		name := n
+		s := &an.Search{P: p, Fn: f,
+			Cut: func(in ssa.Instruction) bool {
+				st, ok := in.(*ssa.Store)
+				if !ok {
+					return false
+				}
+				fa, ok := st.Addr.(*ssa.FieldAddr)
+				if !ok {
+					return false
+				}
+				stt := derefStructT(fa.X.Type())
+				return stt != nil && stt.Field(fa.Field).Name() == name && !an.IsNilConst(st.Val)
+			},
+			GoalReturn: func(r *ssa.Return, pred *ssa.BasicBlock) bool { return p.ClassifyReturn(r, pred) != an.RetError },
+		}
+		idx := 0
+		for i, in := range dec.Block().Instrs {
+			if in == dec {
+				idx = i
+			}
+		}
+		if w := s.Run(dec.Block(), idx+1, nil); w != nil {
+			c.Fail(sk(f)+":fills:"+name, "the master-key branch is entered whenever "+name+" is nil but a successful visit can leave it nil: every later address needs the master key again, and a passphrase-checking request that wipes the master key between two inputs makes signing with the right passphrase fail", posOf(c, dec), w...)
+		} else {
+			c.OK(sk(f)+":fills:"+name, "filled on every successful visit", posOf(c, dec))
+		}
+	}
+}
+
+// ruleScanToCursorInclusive (C07): the scanned range ends (exclusively) one above the height the cursor is advanced to.
+func ruleScanToCursorInclusive(c *report.Ctx) {
+	p := c.P
+	c.Rule("scan-to-cursor-inclusive", "the block range handed to the index query is [cursor+1, stop+1) for the stop the cursor is then advanced to: no height is stepped over", 1)
+	ai := fn(c, pkgWallet, "NtfnsHandler", "asyncImport")
+	ws := p.Type(pkgTxmgr, "WalletStatus")
+	if ai == nil || ws == nil {
+		return
+	}
+	cellOf := func(v ssa.Value) ssa.Value {
+		if ld, ok := v.(*ssa.UnOp); ok && ld.Op == token.MUL {
+			return ld.X
+		}
+		return v
+	}
+	n := 0
+	for _, cl := range append([]*ssa.Function{ai}, ai.AnonFuncs...) {
+		an.Instrs(cl, func(in ssa.Instruction) {
+			cc := an.CallOf(in)
+			if cc == nil || !cc.IsInvoke() || cc.Method.Name() != "FetchScriptHashRelatedTx" {
+				return
+			}
+			n++
+			key := siteKey(cl, "FetchScriptHashRelatedTx-stop", n)
+			b, ok := cc.Args[2].(*ssa.BinOp)
+			if !ok || !isAddOne(b, nil) {
+				c.Fail(key, "the exclusive upper bound of the scanned range is "+p.Desc(cc.Args[2])+", not (new cursor)+1: the last block of every batch is stepped over, so credits and spends at the batch boundaries are missing after an import that reports success", posOf(c, in))
+				return
+			}
+			stopCell := cellOf(b.X)
+			okStore := false
+			for _, st := range fieldStores(cl, ws, "SyncedHeight") {
+				if cellOf(st.(*ssa.Store).Val) == stopCell {
+					okStore = true
+				}
+			}
+			if okStore {
+				c.OK(key, "upper bound = stop+1 and the cursor is advanced to stop", posOf(c, in))
+			} else {
+				c.Fail(key, "the cursor is not advanced to the height the scanned range ended at", posOf(c, in))
+			}
+		})
+	}
+}
+
+// ruleRemovalStepIdempotent (C06/C08): the first removal step can be re-run on a database where it already ran.
+func ruleRemovalStepIdempotent(c *report.Ctx) {
+	p := c.P
+	c.Rule("removal-step-idempotent", "no store operation of removal step 1 turns an already-absent row into an error: a removal interrupted after step 1 is resumed by running step 1 again", 4)
+	ar := fn(c, pkgWallet, "NtfnsHandler", "asyncRemove")
+	if ar == nil || len(ar.AnonFuncs) == 0 {
+		return
+	}
+	step1 := ar.AnonFuncs[0]
+	reached, parent := p.Reach([]*ssa.Function{step1}, an.ReachOpts{})
+	var fs []*ssa.Function
+	for f := range reached {
+		pk := an.FuncPkg(f)
+		if pk == nil || pk.Path() != pkgTxmgr || f.Blocks == nil {
+			continue
+		}
+		fs = append(fs, f)
+	}
+	sort.Slice(fs, func(i, j int) bool { return sk(fs[i]) < sk(fs[j]) })
+	for _, f := range fs {
+		bad := false
+		for _, b := range f.Blocks {
+			r, ok := b.Instrs[len(b.Instrs)-1].(*ssa.Return)
+			if !ok {
+				continue
+			}
+			for i := range r.Results {
+				v := an.RetOperand(r, i)
+				if !an.IsErrorType(v.Type()) {
+					continue
+				}
+				ld, ok := v.(*ssa.UnOp)
+				if !ok {
+					continue
+				}
+				g, ok := ld.X.(*ssa.Global)
+				if !ok || !strings.Contains(g.Name(), "NotFound") && !strings.Contains(g.Name(), "NotExist") {
+					continue
+				}
+				bad = true
+				c.Fail(sk(f)+":returns:"+g.Name(), sk(f)+" is part of removal step 1 and reports "+g.Name()+" when the row is absent: after a stop between step 1 and the final step the resumed removal fails on every retry and the wallet is never removed", posOf(c, r), p.Witness(parent, f)...)
+			}
+		}
+		if !bad {
+			c.OK(sk(f), "no not-found error", p.Pos(f.Pos()))
+		}
 	}
 }
